@@ -50,6 +50,12 @@ CLAIMED = {
  "C12": ("Deductive proof for the grow-only counter: Init/Read/Write/Merge against the partial-map view (Merge = pointwise max on the union of keys, Write adds to one slot, Read = wrapped sum), and, as pure lemmas over those contracts, that Merge is commutative, associative and idempotent and Write (non-negative, no overflow) is an inflation.",
          "NOT covered: AWORSet, LWWSet and their gob pairs (not decided by this check; two genuine defects in them are recorded in DESIGN.md section 4 from probes, not from this check); the sum over an unordered map is axiomatised by its insert step; counts are int32 with wrap-around modelled.",
          "contract-based deductive verification: functional contracts + semilattice lemmas, z3/cvc5"),
+ "C13": ("Deductive proof, thread-modular over the monitor stateLock (strict: every read/write of value, oldValue, hasOldValue is an obligation 'the lock is held', shared for reads, exclusive for writes; the invariant 'snapshot below working value' is re-established at every unlock), that the CRDT resource never loses state: "
+         "the stable value (snapshot while a section is in flight, else the value) only grows in the semilattice order across every locked region; a state received from a peer is inside the stable value once the merger has processed it (this obligation failed on the pinned tree: genuine defect, fixed in 669cc72f); writes of the section in flight change only the working value, Abort restores exactly the stable value, Commit makes the working value stable; "
+         "getStableValue and the RPC reply return the stable value (never an in-flight update); every non-nil state received over RPC is queued for the merger exactly once.",
+         "CRDT values are abstract: the semilattice laws of Merge (idempotent, commutative, associative) and 'Write is an inflation' are axioms here (for GCounter they are the lemmas proved under C12; for AWORSet/LWWSet they are assumptions, and DESIGN.md section 4 records that AWORSet.Merge violates associativity on reachable states). "
+         "NOT covered: broadcast/runBroadcasts/tryConnectPeers (RPC, timers, needBroadcastCount bookkeeping), hence 'eventually reaches every connected peer' (liveness) and 'replicas converge once updates stop' are not decided; Close.",
+         "contract-based deductive verification: strict monitor invariants (Owicki-Gries style) over go/ssa, two-state postconditions relative to the lock acquisition (atlock), abstract semilattice axioms, z3/cvc5"),
  "C17": ("Deductive proof, by a monitor invariant on runStateLock (thread-modular: every lock region re-establishes it, so every interleaving of Stop/Run regions does), that at most one exit request is ever sent (so the send under the lock cannot block), awaitExit is closed at most once and only when the context leaves or skips the running phase, a second Run is refused, and that cleanupResources calls Close on every registered resource.",
          "sync.Mutex gives mutual exclusion; channels are modelled by ghost capacity / total-sends / closed state; requestExit is written only by the running Run (declared 'keeps'); Stop's postcondition closed(awaitExit) rests on the declared (and checked at every send site of the package) fact that awaitExit is never sent on; termination of the wait in Stop (liveness) and map-resource element Close (IncMap/HashMap) are NOT covered.",
          "contract-based deductive verification: monitor invariants (Owicki-Gries style) over go/ssa, ghost channel state, z3/cvc5"),
